@@ -116,7 +116,8 @@ def gen_case(run_seed: int, tier: str, index: int = 0) -> dict:
             variants.append({"level": "bytes", "ops": [[r.choice(BYTE_OPS), r.randrange(1 << 30), r.randrange(1 << 30)] for _ in range(r.choice([1, 1, 2, 3]))], "load": r.random() < 0.3})
         else:
             variants.append({"level": "field", "ops": [[r.choice(FIELD_OPS), r.randrange(1 << 30), r.randrange(1 << 30)] for _ in range(r.choice([1, 1, 2, 3]))], "load": r.random() < 0.3})
-    return {"property": PROPERTY, "run_seed": run_seed, "model_seed": r.randrange(1 << 30), "params": params, "variants": variants, "devices": params["ir_version"] >= 11 and r.random() < 0.5, "external": r.random() < 0.6}
+    # configuration knob of the library: onnx_ir.DEBUG (extra argument checks) must not change what deserialization touches
+    return {"property": PROPERTY, "run_seed": run_seed, "model_seed": r.randrange(1 << 30), "params": params, "variants": variants, "devices": params["ir_version"] >= 11 and r.random() < 0.5, "external": r.random() < 0.6, "debug": Streams(run_seed).rng("debug-knob").random() < 0.3}
 
 
 def base_proto(case: dict) -> onnx.ModelProto:
@@ -705,7 +706,10 @@ def run_case(case: dict) -> dict:
         seam = fsseam.FsSeam(scratch)
         seam.track_reads = True
         rb = fsseam.Rebind()
+        if case.get("debug"):
+            inc("runs_with_onnx_ir_DEBUG")
         with rb:
+            rb.set(ir, "DEBUG", bool(case.get("debug")))
             fsseam.install_fs(rb, seam, external_data=False, core=True, io_mod=True, safetensors=False)
             for vi, var in enumerate(case["variants"]):
                 if var["level"] == "bytes":
